@@ -364,13 +364,38 @@ def rule_G5b(prog, fixture=False):
             continue
         ctors = [x for x in f.walk() if x.k in ("CXXConstructExpr", "CXXTemporaryObjectExpr", "CXXFunctionalCastExpr")
                  and ANY_SLICE_CLASS.match(((x.callee or {}).get("cls") or "")) and len([a for a in x.c]) >= 3]
-        key = "G5b:%s" % fkey(f)
+        key = "G5b:%s%s" % (fkey(f), ":const" if f.get("const") else "")
         where = "%s:%d" % (prog.rel(f.file), f.line)
-        what = "%s forwards its indices" % f.short
+        what = "%s%s forwards its indices" % (f.short, " const" if f.get("const") else "")
         extra = {"props": ["C04", "C05"]}
         n += 1
         if not ctors:
-            res.add(key, UNMODELLED, where, what, "no direct construction of a slice from the parameters found", func=f.name, extra=extra)
+            # delegation to another slice(...) overload of the same class: every index parameter is handed on as it is - one that is
+            # left out is silently replaced by the callee's default (the step of the const `end` overload)
+            dels = [x for x in f.walk() if x.k == "CXXMemberCallExpr" and x.callee and _short(x.callee.get("qn")) == "slice"
+                    and (x.call_object() is None or x.call_object().strip_all().k == "CXXThisExpr")]
+            if not dels:
+                res.add(key, UNMODELLED, where, what, "no direct construction of a slice from the parameters found", func=f.name, extra=extra)
+                continue
+            miss = None
+            for c in dels:
+                args = [a for a in c.call_args() if a.k != "CXXDefaultArgExpr"]
+                names = set()
+                for a in args:
+                    a0 = a.strip_all()
+                    if a0.k == "DeclRefExpr" and a0.decl and a0.decl.get("k") == "parm":
+                        names.add(a0.decl["n"])
+                for q in ints:
+                    if q.get("n") and q["n"] not in names and miss is None:
+                        miss = (c, q["n"])
+            if miss:
+                c, pn = miss
+                res.add(key, VIOLATED, "%s:%d" % (prog.rel(f.file), c.line), what,
+                        "`%s` delegates without handing on the parameter `%s`: the callee's default takes its place, so the slice denotes "
+                        "other elements than the caller named (and a value the constructor would reject is never seen by it)"
+                        % (c.text()[:60], pn), func=f.name, extra=extra)
+            else:
+                res.add(key, DISCHARGED, where, what, "delegates to another overload with every index parameter handed on", func=f.name, extra=extra)
             continue
 
         def plain(e, depth=0):
